@@ -146,12 +146,18 @@ class Multiplexer(ComplexDop):
         encode_state.cursor_bit_position = self.switch_key.bit_position or 0
         self.switch_key.dop.encode_into_pdu(physical_value=key_value, encode_state=encode_state)
         encode_state.cursor_bit_position = 0
+        key_end_position = encode_state.cursor_byte_position
 
         if mux_case.structure is not None:
             # the byte position of the content is specified by the
             # BYTE-POSITION attribute of the multiplexer
             encode_state.cursor_byte_position = encode_state.origin_byte_position + self.byte_position
             mux_case.structure.encode_into_pdu(physical_value=case_value, encode_state=encode_state)
+
+            # the multiplexer extends at least to the end of its
+            # switch key
+            encode_state.cursor_byte_position = max(encode_state.cursor_byte_position,
+                                                    key_end_position)
 
         encode_state.origin_byte_position = orig_origin
 
@@ -167,6 +173,7 @@ class Multiplexer(ComplexDop):
         decode_state.cursor_bit_position = self.switch_key.bit_position or 0
         key_value = self.switch_key.dop.decode_from_pdu(decode_state)
         decode_state.cursor_bit_position = 0
+        key_end_position = decode_state.cursor_byte_position
 
         if not isinstance(key_value, int):
             odxraise(f"Multiplexer keys must be integers (is '{type(key_value).__name__}'"
@@ -195,6 +202,11 @@ class Multiplexer(ComplexDop):
             # relatively to the byte position of the MUX."
             decode_state.cursor_byte_position = decode_state.origin_byte_position + self.byte_position
             case_value = applicable_case.structure.decode_from_pdu(decode_state)
+
+            # the multiplexer extends at least to the end of its
+            # switch key
+            decode_state.cursor_byte_position = max(decode_state.cursor_byte_position,
+                                                    key_end_position)
         else:
             case_value = {}
 
